@@ -136,6 +136,7 @@ def NSpec.WF (m : Mesh) : NSpec → Prop
   | .fn _ => True
   | .arr a => a.shape = m.n ∨ a.shape = m.n ++ [1]
   | .field h => h.mesh = m ∧ h.nvdim = 1
+  | .spec s => ∃ a, C02.asArray (fun v => v == 0) s m 1 = .ok a
 
 def VSpec.WF (m : Mesh) (nvdim : Nat) : VSpec → Prop
   | .scalar c => nvdim = 1 ∨ c = 0
@@ -166,6 +167,9 @@ theorem asArray1_accepts (m : Mesh) (hm : m.Inv) (s : NSpec) (hs : s.WF m) :
   | field h =>
     obtain ⟨t, ht, _⟩ := fieldAsArray1_same m h hm hs.1 hs.2
     exact ⟨t, ht⟩
+  | spec s =>
+    obtain ⟨a, ha⟩ := hs
+    exact ⟨⟨m.n, fun i => a.get (i ++ [0])⟩, by simp only [asArray1, ha]⟩
 
 theorem valuesOf_accepts (m : Mesh) (nvdim : Nat) (v : VSpec) (hv : v.WF m nvdim) :
     ∃ a, valuesOf m nvdim v = .ok a := by
